@@ -14,4 +14,7 @@ var Registry = map[string]func(args []string){
 	"resume-tamper": ResumeTamper,
 	"resume-observe": ResumeObserve,
 	"resume-states": ResumeStates,
+	"wire-values": WireValues,
+	"wire-mutations": WireMutations,
+	"wire-case": WireCase,
 }
